@@ -25,8 +25,10 @@ Inductive op :=
 (* mixer *)
 | SetVolume (v : Z) | SetMute (m : bool)
 (* environment *)
-| Deliver | AboutToFinish | Tick (d : Z)
-| Save | Load (cov : coverage).
+| Deliver | AboutToFinish | EndOfStream | Tick (d : Z)
+| Save | Load (cov : coverage)
+(* harness: start from a session that already has this play history (newest first) *)
+| SetHistory (ks : list track).
 
 (* Value returned by an operation *)
 Inductive retv :=
@@ -54,17 +56,36 @@ Definition deliver : M unit :=
       end
   end.
 
+(* The pipeline announces (once per stream) that the current stream is about to end; the core's
+   handler runs synchronously (the streaming thread blocks on the core actor).  While playing,
+   the switch to a preloaded stream completes at once (or, with nothing preloaded, the stream
+   ends).  While paused (the announcement was served after a pause that was queued first) a
+   preloaded stream is announced when playback resumes, and with nothing preloaded the old
+   stream is left to play out (EndOfStream). *)
 Definition about_to_finish : M unit :=
   w <- get ;;
-  if is_some (a_uri w) && ps_eqb (a_state w) Playing then
-    modify (fun w => w <| a_uri := None |>) ;;
-    on_about_to_finish shuf fuel ;;
-    w <- get ;;
-    match a_uri w with
-    | None => enqueue NReachedEos
-    | Some u => modify (fun w => w <| a_fresh := false |>) ;;
-                enqueue (NPositionChanged 0) ;; enqueue (NStreamChanged (Some u))
-    end
+  match a_uri w with
+  | Some old =>
+      if negb (ps_eqb (a_state w) Stopped) && negb (a_atf_done w) then
+        modify (fun w => w <| a_uri := None |>) ;;
+        on_about_to_finish shuf fuel ;;
+        w1 <- get ;;
+        match a_uri w1, ps_eqb (a_state w1) Playing with
+        | Some u, true => modify (fun w => w <| a_fresh := false |>) ;;
+                          enqueue (NPositionChanged 0) ;; enqueue (NStreamChanged (Some u))
+        | Some u, false => ret tt
+        | None, true => enqueue NReachedEos
+        | None, false => modify (fun w => w <| a_uri := Some old |> <| a_atf_done := true |>)
+        end
+      else ret tt
+  | None => ret tt
+  end.
+
+(* the stream that was left to play out reaches its end *)
+Definition end_of_stream_env : M unit :=
+  w <- get ;;
+  if is_some (a_uri w) && ps_eqb (a_state w) Playing && a_atf_done w then
+    modify (fun w => w <| a_uri := None |>) ;; enqueue NReachedEos
   else ret tt.
 
 Definition tick (d : Z) : M unit :=
@@ -128,9 +149,11 @@ Definition run_op (o : op) : M retv :=
   | SetMute m => b <- set_mute m ;; ret (RBool b)
   | Deliver => deliver ;; ret RNone
   | AboutToFinish => about_to_finish ;; ret RNone
+  | EndOfStream => end_of_stream_env ;; ret RNone
   | Tick d => tick d ;; ret RNone
   | Save => save_state ;; ret RNone
   | Load cov => do_load cov ;; ret RNone
+  | SetHistory ks => modify (fun w => w <| history := ks |>) ;; ret RNone
   end.
 
 (* ------------------------------------------------------------- flat observations *)
